@@ -893,6 +893,18 @@ Proof.
   - vm_compute. reflexivity.
 Qed.
 
+Lemma store_writes_ok_true : store_writes_ok = true.
+Proof. vm_compute. reflexivity. Qed.
+
+Theorem store_writes_hold_write_lock : store_writes_hold_write_lock_statement.
+Proof.
+  intros m evs Hin Htop t Ht Hm.
+  pose proof store_writes_ok_true as H. unfold store_writes_ok in H. rewrite forallb_forall in H.
+  specialize (H (m, evs) (in_top m evs Hin Htop)). cbn [fst snd] in H.
+  rewrite forallb_forall in H. specialize (H t Ht). rewrite Hm in H. cbn [negb orb] in H.
+  apply mem_str_In. exact H.
+Qed.
+
 (** ** The two phases of Add *)
 
 Theorem add_phases_match_source : add_phases_match_source_statement.
@@ -910,25 +922,265 @@ Proof.
   rewrite (proj2 add_phases_match_source). reflexivity.
 Qed.
 
-(** ** Two concurrent Adds *)
+(** ** Writers as critical sections *)
 
-Theorem same_id_adds_can_diverge_counterexample : same_id_adds_can_diverge_counterexample_statement.
+Theorem add_is_one_critical_section : add_is_one_critical_section_statement.
+Proof. vm_compute. split; reflexivity. Qed.
+
+Theorem clear_is_one_critical_section : clear_is_one_critical_section_statement.
+Proof. intros m [<-|[<-|[<-|[<-|[]]]]]; vm_compute; reflexivity. Qed.
+
+Theorem rem_is_paired_sections : rem_is_paired_sections_statement.
+Proof. vm_compute. split; reflexivity. Qed.
+
+Lemma add_lprog_indexed id v :
+  add_lprog "IndexedState" id v = [Acq; Act (Mem id v); Act (Sto id v); Rel].
 Proof.
-  intros ty [<-|[<-|[]]].
-  - rewrite !add_prog_indexed. exists [Mem 1 10; Mem 1 20; Sto 1 20; Sto 1 10]%nat.
-    split; [cbn; tauto|]. left. split; reflexivity.
-  - rewrite !add_prog_linear. exists [Sto 1 10; Sto 1 20; Mem 1 20; Mem 1 10]%nat.
-    split; [cbn; tauto|]. right. split; reflexivity.
+  unfold add_lprog. change (String.append "IndexedState" ".Add") with "IndexedState.Add".
+  rewrite (proj1 add_is_one_critical_section). reflexivity.
 Qed.
 
-Theorem same_id_divergence_count : same_id_divergence_count_statement.
-Proof. intros ty [<-|[<-|[]]]; vm_compute; split; reflexivity. Qed.
+Lemma add_lprog_linear id v :
+  add_lprog "LinearState" id v = [Acq; Act (Sto id v); Act (Mem id v); Rel].
+Proof.
+  unfold add_lprog. change (String.append "LinearState" ".Add") with "LinearState.Add".
+  rewrite (proj2 add_is_one_critical_section). reflexivity.
+Qed.
+
+Lemma rem_head_indexed : firstn 2 (tl (shape_of "IndexedState.Rem")) = [SMem; SSto].
+Proof. vm_compute. reflexivity. Qed.
+Lemma rem_head_linear : firstn 2 (tl (shape_of "LinearState.Rem")) = [SSto; SMem].
+Proof. vm_compute. reflexivity. Qed.
+
+Lemma rem_pair_indexed id : rem_pair "IndexedState" id = [Act (MemDel id); Act (StoDel id)].
+Proof.
+  unfold rem_pair. change (String.append "IndexedState" ".Rem") with "IndexedState.Rem".
+  rewrite rem_head_indexed. reflexivity.
+Qed.
+
+Lemma rem_pair_linear id : rem_pair "LinearState" id = [Act (StoDel id); Act (MemDel id)].
+Proof.
+  unfold rem_pair. change (String.append "LinearState" ".Rem") with "LinearState.Rem".
+  rewrite rem_head_linear. reflexivity.
+Qed.
+
+Lemma clear_lprog_any ty : In ty state_types -> clear_lprog ty = [Acq; Act StoClr; Act MemClr; Rel].
+Proof.
+  intros [<-|[<-|[]]]; unfold clear_lprog.
+  - change (String.append "IndexedState" ".Clear") with "IndexedState.Clear".
+    rewrite (clear_is_one_critical_section "IndexedState.Clear"); [reflexivity|cbn; tauto].
+  - change (String.append "LinearState" ".Clear") with "LinearState.Clear".
+    rewrite (clear_is_one_critical_section "LinearState.Clear"); [reflexivity|cbn; tauto].
+Qed.
+
+(** ** The lock: well-locked writers never diverge *)
+
+(** a writer that does not hold the lock does not depend on the state *)
+Lemma wl_free_indep p st st' : wl false p st -> wl false p st'.
+Proof.
+  destruct p as [|[| |a] r]; cbn [wl]; intros H.
+  - exact H.
+  - exact H.
+  - destruct H as [H _]. discriminate H.
+  - destruct H as [H _]. discriminate H.
+Qed.
+
+Definition linv (h : option bool) (p1 p2 : list lstep) (st : mstate) : Prop :=
+  match h with
+  | None => agree st /\ wl false p1 st /\ wl false p2 st
+  | Some true => wl true p1 st /\ wl false p2 st
+  | Some false => wl false p1 st /\ wl true p2 st
+  end.
+
+Lemma lsched_inv h p1 p2 il :
+  lsched h p1 p2 il -> forall st, linv h p1 p2 st -> agree (arun st il).
+Proof.
+  induction 1 as [|p1 p2 il _ IH|p1 p2 il _ IH|h a p1 p2 il _ IH
+                  |p1 p2 il _ IH|p1 p2 il _ IH|h a p1 p2 il _ IH]; intros st Hi.
+  - destruct Hi as [Ha _]. exact Ha.
+  - (* the first acquires *)
+    destruct Hi as (Ha & H1 & H2). cbn [wl] in H1. destruct H1 as [_ H1].
+    apply IH. split; [apply H1; exact Ha|exact H2].
+  - (* the first releases *)
+    destruct Hi as (H1 & H2). cbn [wl] in H1. destruct H1 as (_ & Ha & H1).
+    apply IH. split; [exact Ha|]. split; [apply H1; exact Ha|exact H2].
+  - (* the first acts *)
+    change (arun st (a :: il)) with (arun (astep_do st a) il). apply IH.
+    destruct h as [[|]|]; cbn [linv] in *.
+    + destruct Hi as (H1 & H2). cbn [wl] in H1. destruct H1 as [_ H1].
+      split; [exact H1|eapply wl_free_indep; exact H2].
+    + destruct Hi as (H1 & _). cbn [wl] in H1. destruct H1 as [H1 _]. discriminate H1.
+    + destruct Hi as (_ & H1 & _). cbn [wl] in H1. destruct H1 as [H1 _]. discriminate H1.
+  - (* the second acquires *)
+    destruct Hi as (Ha & H1 & H2). cbn [wl] in H2. destruct H2 as [_ H2].
+    apply IH. split; [exact H1|apply H2; exact Ha].
+  - (* the second releases *)
+    destruct Hi as (H1 & H2). cbn [wl] in H2. destruct H2 as (_ & Ha & H2).
+    apply IH. split; [exact Ha|]. split; [exact H1|apply H2; exact Ha].
+  - (* the second acts *)
+    change (arun st (a :: il)) with (arun (astep_do st a) il). apply IH.
+    destruct h as [[|]|]; cbn [linv] in *.
+    + destruct Hi as (_ & H2). cbn [wl] in H2. destruct H2 as [H2 _]. discriminate H2.
+    + destruct Hi as (H1 & H2). cbn [wl] in H2. destruct H2 as [_ H2].
+      split; [eapply wl_free_indep; exact H1|exact H2].
+    + destruct Hi as (_ & _ & H2). cbn [wl] in H2. destruct H2 as [H2 _]. discriminate H2.
+Qed.
+
+Theorem locked_writers_never_diverge : locked_writers_never_diverge_statement.
+Proof.
+  intros p1 p2 st il W1 W2 Ha Hs. eapply lsched_inv; [exact Hs|].
+  split; [exact Ha|]. split; [apply W1|apply W2].
+Qed.
+
+(** *** The writers of the code are well locked *)
 
 Lemma agree_add st id v : agree st -> agree (astep_do (astep_do st (Mem id v)) (Sto id v)).
 Proof. intros H x. cbn. unfold upd. destruct (Nat.eqb x id); [reflexivity|apply H]. Qed.
 
 Lemma agree_add' st id v : agree st -> agree (astep_do (astep_do st (Sto id v)) (Mem id v)).
 Proof. intros H x. cbn. unfold upd. destruct (Nat.eqb x id); [reflexivity|apply H]. Qed.
+
+Lemma agree_del st id : agree st -> agree (astep_do (astep_do st (MemDel id)) (StoDel id)).
+Proof. intros H x. cbn. unfold del. destruct (Nat.eqb x id); [reflexivity|apply H]. Qed.
+
+Lemma agree_del' st id : agree st -> agree (astep_do (astep_do st (StoDel id)) (MemDel id)).
+Proof. intros H x. cbn. unfold del. destruct (Nat.eqb x id); [reflexivity|apply H]. Qed.
+
+Lemma well_locked_add ty id v : In ty state_types -> well_locked (add_lprog ty id v).
+Proof.
+  intros [<-|[<-|[]]] st.
+  - rewrite add_lprog_indexed. cbn [wl]. split; [reflexivity|]. intros st' Ha.
+    split; [reflexivity|]. split; [reflexivity|]. split; [reflexivity|].
+    split; [apply agree_add; exact Ha|]. intros; reflexivity.
+  - rewrite add_lprog_linear. cbn [wl]. split; [reflexivity|]. intros st' Ha.
+    split; [reflexivity|]. split; [reflexivity|]. split; [reflexivity|].
+    split; [apply agree_add'; exact Ha|]. intros; reflexivity.
+Qed.
+
+(** a writer followed by a writer *)
+Lemma wl_app p q : (forall st, wl false q st) ->
+  forall held st, wl held p st -> wl held (p ++ q) st.
+Proof.
+  intros Wq. induction p as [|[| |a] r IH]; intros held st H; cbn [app wl] in *.
+  - subst held. apply Wq.
+  - destruct H as [Hh H]. split; [exact Hh|]. intros st' Ha. apply IH. apply H. exact Ha.
+  - destruct H as (Hh & Ha & H). split; [exact Hh|]. split; [exact Ha|].
+    intros st' Ha'. apply IH. apply H. exact Ha'.
+  - destruct H as [Hh H]. split; [exact Hh|]. apply IH. exact H.
+Qed.
+
+(** the pairs of one section *)
+Lemma wl_pairs ty : In ty state_types -> forall ids st,
+  agree st -> wl true (flat_map (rem_pair ty) ids ++ [Rel]) st.
+Proof.
+  intros Hty ids. induction ids as [|x ids IH]; intros st Ha.
+  - cbn [flat_map app wl]. split; [reflexivity|]. split; [exact Ha|]. intros; reflexivity.
+  - cbn [flat_map]. rewrite <- app_assoc.
+    destruct Hty as [<-|[<-|[]]].
+    + rewrite rem_pair_indexed. cbn [app wl]. split; [reflexivity|]. split; [reflexivity|].
+      apply IH. apply agree_del. exact Ha.
+    + rewrite rem_pair_linear. cbn [app wl]. split; [reflexivity|]. split; [reflexivity|].
+      apply IH. apply agree_del'. exact Ha.
+Qed.
+
+Lemma well_locked_rem_section ty ids : In ty state_types -> well_locked (rem_section ty ids).
+Proof.
+  intros Hty st. unfold rem_section. cbn [wl]. split; [reflexivity|].
+  intros st' Ha. apply wl_pairs; assumption.
+Qed.
+
+Lemma well_locked_rem ty ids pids : In ty state_types -> well_locked (rem_lprog ty ids pids).
+Proof.
+  intros Hty st. unfold rem_lprog. apply wl_app; [|apply well_locked_rem_section; exact Hty].
+  destruct pids as [|x pids]; [intros; reflexivity|].
+  apply well_locked_rem_section. exact Hty.
+Qed.
+
+Lemma well_locked_clear ty : In ty state_types -> well_locked (clear_lprog ty).
+Proof.
+  intros Hty st. rewrite (clear_lprog_any ty Hty). cbn [wl]. split; [reflexivity|]. intros st' Ha.
+  split; [reflexivity|]. split; [reflexivity|]. split; [reflexivity|].
+  split; [intros x; reflexivity|]. intros; reflexivity.
+Qed.
+
+Theorem code_writers_well_locked : code_writers_well_locked_statement.
+Proof.
+  intros ty Hty. split; [|split].
+  - intros id v. apply well_locked_add. exact Hty.
+  - intros ids pids. apply well_locked_rem. exact Hty.
+  - apply well_locked_clear. exact Hty.
+Qed.
+
+(** *** Two Adds: only the two serial orders *)
+
+Ltac linv_step H :=
+  inversion H; clear H; subst.
+
+Theorem same_id_adds_are_serial : same_id_adds_are_serial_statement.
+Proof.
+  intros ty id1 v1 id2 v2 il Hty Hs.
+  destruct Hty as [<-|[<-|[]]].
+  - rewrite !add_prog_indexed. rewrite !add_lprog_indexed in Hs.
+    repeat match goal with
+           | H : lsched _ _ _ _ |- _ => linv_step H
+           end; cbn [app]; auto.
+  - rewrite !add_prog_linear. rewrite !add_lprog_linear in Hs.
+    repeat match goal with
+           | H : lsched _ _ _ _ |- _ => linv_step H
+           end; cbn [app]; auto.
+Qed.
+
+Theorem same_id_adds_never_diverge : same_id_adds_never_diverge_statement.
+Proof.
+  intros ty Hty. split; [|split].
+  - intros id v1 v2 st il Ha Hs. split.
+    + eapply locked_writers_never_diverge; [| |exact Ha|exact Hs]; apply well_locked_add; exact Hty.
+    + destruct (same_id_adds_are_serial ty id v1 id v2 il Hty Hs) as [->| ->];
+        destruct Hty as [<-|[<-|[]]]; rewrite ?add_prog_indexed, ?add_prog_linear;
+        cbn; unfold upd; rewrite Nat.eqb_refl; auto.
+  - intros id v ids pids st il Ha Hs.
+    eapply locked_writers_never_diverge; [| |exact Ha|exact Hs];
+      [apply well_locked_add|apply well_locked_rem]; exact Hty.
+  - intros id v st il Ha Hs.
+    eapply locked_writers_never_diverge; [| |exact Ha|exact Hs];
+      [apply well_locked_add|apply well_locked_clear]; exact Hty.
+Qed.
+
+(** the hypotheses are satisfiable: a schedule exists (first writer, then second) *)
+Example same_id_adds_schedule_exists :
+  lsched None (add_lprog "LinearState" 1 10) (add_lprog "LinearState" 1 20)
+         [Sto 1 10; Mem 1 10; Sto 1 20; Mem 1 20]%nat.
+Proof.
+  rewrite !add_lprog_linear.
+  apply LS_acq1, LS_act1, LS_act1, LS_rel1, LS_acq2, LS_act2, LS_act2, LS_rel2, LS_done.
+Qed.
+
+Example add_rem_schedule_exists :
+  lsched None (add_lprog "IndexedState" 1 10) (rem_lprog "IndexedState" [1; 2] [3])%nat
+         [MemDel 1; StoDel 1; MemDel 2; StoDel 2; Mem 1 10; Sto 1 10; MemDel 3; StoDel 3]%nat.
+Proof.
+  rewrite add_lprog_indexed. unfold rem_lprog, rem_section. cbn [flat_map]. rewrite !rem_pair_indexed.
+  cbn [app].
+  apply LS_acq2, LS_act2, LS_act2, LS_act2, LS_act2, LS_rel2.
+  apply LS_acq1, LS_act1, LS_act1, LS_rel1.
+  apply LS_acq2, LS_act2, LS_act2, LS_rel2, LS_done.
+Qed.
+
+(** the lock model is not vacuous *)
+Theorem prerepair_adds_diverge_example : prerepair_adds_diverge_statement.
+Proof.
+  intros [|].
+  - exists [Mem 1 10; Mem 1 20; Sto 1 20; Sto 1 10]%nat. split.
+    + cbn [prerepair_add].
+      apply LS_acq1, LS_act1, LS_rel1, LS_acq2, LS_act2, LS_rel2, LS_act2, LS_act1, LS_done.
+    + cbn. discriminate.
+  - exists [Sto 1 10; Sto 1 20; Mem 1 20; Mem 1 10]%nat. split.
+    + cbn [prerepair_add].
+      apply LS_act1, LS_act2, LS_acq2, LS_act2, LS_rel2, LS_acq1, LS_act1, LS_rel1, LS_done.
+    + cbn. discriminate.
+Qed.
+
+(** ** Two Adds without the lock: sequential, different ids *)
 
 Lemma agree_prog ty id v st : In ty state_types -> agree st -> agree (arun st (add_prog ty id v)).
 Proof.
@@ -1035,8 +1287,17 @@ Print Assumptions write_methods_take_write_lock.
 Print Assumptions mutations_hold_write_lock.
 Print Assumptions readers_purge_under_write_lock.
 Print Assumptions add_phases_match_source.
-Print Assumptions same_id_adds_can_diverge_counterexample.
-Print Assumptions same_id_divergence_count.
+Print Assumptions store_writes_hold_write_lock.
+Print Assumptions add_is_one_critical_section.
+Print Assumptions clear_is_one_critical_section.
+Print Assumptions rem_is_paired_sections.
+Print Assumptions locked_writers_never_diverge.
+Print Assumptions code_writers_well_locked.
+Print Assumptions same_id_adds_are_serial.
+Print Assumptions same_id_adds_never_diverge.
+Print Assumptions same_id_adds_schedule_exists.
+Print Assumptions add_rem_schedule_exists.
+Print Assumptions prerepair_adds_diverge_example.
 Print Assumptions sequential_adds_agree.
 Print Assumptions different_ids_never_diverge.
 Print Assumptions lin_example_linearizable.
